@@ -212,7 +212,8 @@ func (r *AvPacket2RtmpRemuxer) FeedAvPacket(pkt base.AvPacket) {
 						//	}
 						//}
 						payload[0] = base.RtmpAvcKeyFrame
-					} else {
+					} else if payload[0] != base.RtmpAvcKeyFrame {
+						// 注意，一个包中有多个nal时（比如关键帧后面跟着sei），只要有关键帧的nal，整个消息就是关键帧
 						payload[0] = base.RtmpAvcInterFrame
 					}
 					payload[1] = base.RtmpAvcPacketTypeNalu
@@ -261,7 +262,7 @@ func (r *AvPacket2RtmpRemuxer) FeedAvPacket(pkt base.AvPacket) {
 						//	}
 						//}
 						payload[0] = base.RtmpHevcKeyFrame
-					} else {
+					} else if payload[0] != base.RtmpHevcKeyFrame {
 						payload[0] = base.RtmpHevcInterFrame
 					}
 					payload[1] = base.RtmpHevcPacketTypeNalu
